@@ -622,9 +622,23 @@ def main(argv=None, prop=PROP, modname='checks.C09', codec=CODEC, jobs_fn=None, 
     if a.only:
         jobs = [j for j in jobs if a.only in j['id']]
     # generator + gcc runs once per template, in parallel, before the workers fork
-    cgen.prebuild([(t, codec, NS) for j in jobs for t in (texts_fn or _texts)(j)], a.nproc or 16)
+    items = {}
+    for j in jobs:
+        for t in (texts_fn or _texts)(j):
+            items.setdefault((t, codec, NS), j['template'])
+    cgen.prebuild(list(items), a.nproc or 16)
+    gen = {'generated_and_compiled': 0, 'rejected_by_generator': 0, 'other': 0}
+    warnings = {}
+    for key, tid in items.items():
+        b = cgen._BUNDLES.get(key) or {}
+        err = b.get('error')
+        gen['generated_and_compiled' if err is None else ('rejected_by_generator' if err[0] == 'rejected' else 'other')] += 1
+        if b.get('warnings'):
+            warnings[tid] = b['warnings'][:5]
     return runner.run_check(
         prop, modname, jobs, a.tier, a.seed, level='translation_validation', replay=replay_fn, nproc=a.nproc,
+        extra_coverage=dict(programs=gen['generated_and_compiled'], generator_outcomes=gen,
+                            gcc='gcc -std=c99 -Wall -Wextra -c (errors fatal)', gcc_warnings=warnings or 'none'),
         functions=['asn1tools.source.c.%s.* / %s_functions (as emitted: every generated *_encode/_decode and '
                    'helper, interpreted from the pycparser AST)' % (codec, codec),
                    'asn1tools.codecs.%s.* (oracle, run under pyfront)' % codec],
